@@ -14,6 +14,8 @@ GLOBALS = {"G": "int", "GS": "str", "GL": "ilist", "Y": "int"}  # plus d0 = {"a"
 EXTRA_ARGS = {"Y": "int"}  # a parameter of the function that the condition never takes; collides with the global Y
 CMP_OPS = ["<", "<=", ">", ">=", "==", "!="]
 ALPHABET = "abcxyz\u00e9\u03bb"  # two non-ASCII letters: ascii() and repr() differ on them
+# string LITERALS in the condition may hold what looks like syntax: lone parentheses, a comment sign, an `@`
+LITERAL_ALPHABET = ALPHABET + "()#@["
 
 
 class Gen:
@@ -232,10 +234,10 @@ class Gen:
 
     def t_str(self, depth):
         if depth <= 0:
-            return self.pick([repr(self.draw(st.text(ALPHABET, max_size=4))), self.name("str")])
+            return self.pick([repr(self.draw(st.text(LITERAL_ALPHABET, max_size=4))), self.name("str")])
         k = self.draw(st.integers(0, 6))
         if k == 0:
-            return repr(self.draw(st.text(ALPHABET, max_size=4)))
+            return repr(self.draw(st.text(LITERAL_ALPHABET, max_size=4)))
         if k == 1:
             return self.name("str")
         if k == 2:
